@@ -74,6 +74,10 @@ class AssocGen(F.Gen):
         if 'assoc' in self.f and self.assoc_depth < self.max_depth and self.rng.random() < (0.35 if self.assoc_depth else 0.2):
             return self.assoc_stmt(d)
         out = super().stmt(d)
+        if not self.intrinsics:
+            for s in out:
+                if s['s'] == 'do' and has_kind(s['hi'], 'call'):      # DO i = lo, min(n, hi)
+                    s['hi'] = N(self.loop_range[s['var']][1])
         if self.assoc_names:
             for s in out:
                 if s['s'] == 'call':
